@@ -4,7 +4,7 @@
     elapsed time after [k] rounds of the history (see [C04_elapsed_def]),
     [counted_after] the number of recorded samples that count against
     [sample_count], [continue_after] the documented rule. *)
-From DivanV Require Import Base.Res Generated.Consts Model.Timestamp Model.Loop Proofs.Loop Proofs.LoopProps Proofs.LoopTotal Proofs.LoopSb Proofs.LoopExamples.
+From DivanV Require Import Base.Res Generated.Consts Model.Timestamp Model.Loop Proofs.Loop Proofs.LoopProps Proofs.LoopTotal Proofs.LoopSb Proofs.LoopExamples Proofs.LoopCalib.
 Local Open Scope N_scope.
 
 (** Obligations on the generated constants: `elapsed >= max` stops, `elapsed <
@@ -132,3 +132,56 @@ Theorem C04_decimal_nanos_example :
   decimal_nanos 0 [0; 0; 0; 4] = 400000 /\ decimal_nanos 1 [5] = 1500000000 /\ decimal_nanos 2 [] = 2000000000 /\
   decimal_nanos 0 [0; 0; 1; 4; 0; 0; 0; 0; 7] = 1400007.
 Proof. exact decimal_nanos_example. Qed.
+
+(** * The time origin and the first-use calibration of the timer overheads
+
+    "Elapsed time runs from just before the first sample": the clock reads [t0]
+    when the loop is about to read its origin and to look up the timer overheads;
+    the lookup calibrates on its first use in a process, taking [calib] ticks
+    which "min_time and max_time do not consider as benchmarking time".
+    [bench_loop_cal] reads the origin before or after the lookup as the source
+    does ([origin_before_calib], generated). *)
+
+(** With the origin read BEFORE the lookup the property fails (one sample,
+    min_time 500 ps, calibration 800 ps, rounds of 101 ps: the loop returns
+    after one round, the rule measured from the first sample asks for five). *)
+Theorem C04_origin_before_calibration_refuted :
+  exists out, bench_loop cal_cfg (origin_reading true 0 800) cal_hist = Ok out /\ out_done out = true /\
+    rounds_of (out_state out) = 1%nat /\
+    (forall j, (j < 5)%nat -> continue_after cal_cfg (0 + 800) cal_hist j = true) /\
+    continue_after cal_cfg (0 + 800) cal_hist 5 = false.
+Proof. exact origin_before_refuted. Qed.
+Print Assumptions C04_origin_before_calibration_refuted.
+
+(** Obligation on the generated constant: the source reads the origin AFTER
+    the overhead lookup. *)
+Theorem C04_origin_after_calibration : origin_before_calib = false.
+Proof. reflexivity. Qed.
+
+(** Then the run depends on the clock after the calibration only ... *)
+Theorem C04_calibration_independent : forall c t0 calib t0' calib' hist,
+  origin_before_calib = false -> t0 + calib = t0' + calib' ->
+  bench_loop_cal c t0 calib hist = bench_loop_cal c t0' calib' hist.
+Proof. exact calib_independent. Qed.
+Print Assumptions C04_calibration_independent.
+
+(** ... and the rounds are the least k of the rule with the elapsed time
+    measured from just before the first sample. *)
+Theorem C04_rounds_least_from_first_sample : forall c t0 calib hist out,
+  origin_before_calib = false ->
+  c_test c = false -> has_samples c = true ->
+  bench_loop_cal c t0 calib hist = Ok out ->
+  let k := rounds_of (out_state out) in
+  (k <= length hist)%nat /\
+  (forall j, (j < k)%nat -> continue_after c (t0 + calib) hist j = true) /\
+  (if out_done out then continue_after c (t0 + calib) hist k = false
+   else k = length hist /\ continue_after c (t0 + calib) hist k = true).
+Proof. exact rounds_least_cal. Qed.
+Print Assumptions C04_rounds_least_from_first_sample.
+
+Theorem C04_cal_model_sb : forall c t0 calib hist out t s,
+  origin_before_calib = false ->
+  bench_loop_cal c t0 calib hist = Ok out -> seen_of_outcome t out = Ok s ->
+  c04_cal_sb c t0 calib (firstn (rounds_of (out_state out)) hist) s = true.
+Proof. exact cal_model_sb. Qed.
+Print Assumptions C04_cal_model_sb.
